@@ -82,6 +82,11 @@ func BuildHolder(holder string, v *Val) (datamodel.Node, error) {
 	switch holder {
 	case "basic":
 		return BuildBasic(v)
+	case "basicuint":
+		// same value, every non-negative int held by a UintNode
+		AllUint = true
+		defer func() { AllUint = false }()
+		return BuildBasic(v)
 	case "bindmap":
 		holderInit()
 		proto := bindnode.Prototype((*bindMapAny)(nil), holderMapType)
